@@ -102,9 +102,35 @@ def _origin_allowed(ctx, fi, node):
     return None
 
 
+def _injective_key(call):
+    """`sorted(xs, key=K)`: is K certainly injective on distinct elements
+    (no key, str/repr, identity, or a tuple containing one of those)?"""
+    key = Q.kwarg(call, 'key')
+    if key is None:
+        return True
+    if isinstance(key, ast.Name) and key.id in INJECTIVE_KEYS:
+        return True
+    if isinstance(key, ast.Lambda) and key.args.args:
+        b = key.body
+        arg = key.args.args[0].arg
+
+        def whole(x):
+            if isinstance(x, ast.Name) and x.id == arg:
+                return True
+            return isinstance(x, ast.Call) and Q.attr_name(x.func) in \
+                INJECTIVE_KEYS and len(x.args) == 1 and isinstance(
+                    x.args[0], ast.Name) and x.args[0].id == arg
+        if whole(b):
+            return True
+        if isinstance(b, ast.Tuple) and any(whole(x) for x in b.elts):
+            return True
+    return False
+
+
 class Analysis:
-    def __init__(self, repo):
+    def __init__(self, repo, facts=None):
         self.repo = repo
+        self.facts = facts
         self.ret_unordered = {}      # func fq -> bool
         self.attr_unordered = {}     # (class fq, attr) -> bool
         self.param_unordered = {}    # (func fq, param) -> bool
@@ -138,6 +164,11 @@ class Analysis:
             if isinstance(e.func, ast.Name):
                 if name in SET_CTORS or name in SPECSET_CTORS:
                     return True
+                # a stable sort with a key that can tie leaves the tied
+                # elements in hash order
+                if name == 'sorted' and e.args and u(e.args[0]) and \
+                        not _injective_key(e):
+                    return True
                 if name == 'objectify' and len(e.args) >= 2 and \
                         Q.attr_name(e.args[1]) in SPECSET_CTORS:
                     return True
@@ -158,8 +189,7 @@ class Analysis:
                 return True
             # dict.keys() - x  /  x - dict.keys() : set result
             for side in (e.left, e.right):
-                if isinstance(side, ast.Call) and Q.attr_name(
-                        side.func) == 'keys':
+                if self.view(side, fn):
                     return True
             return False
         if isinstance(e, ast.IfExp):
@@ -175,6 +205,16 @@ class Analysis:
         if isinstance(e, ast.Name) and fn is not None:
             if (fn.fq, e.id) in self.param_unordered:
                 return self.param_unordered[(fn.fq, e.id)]
+            rd = self._reaching(e, fn)
+            if rd:
+                # may-analysis: some definition reaching this use is unordered
+                if e.id in getattr(self, '_stack', set()):
+                    return False
+                self._stack = getattr(self, '_stack', set()) | {e.id}
+                try:
+                    return any(v is not None and u(v) for v in rd)
+                finally:
+                    self._stack = self._stack - {e.id}
             vals = Q.local_assignments(fn.node, e.id)
             if vals and all(v is not None for v in vals):
                 if e.id in getattr(self, '_stack', set()):
@@ -194,6 +234,29 @@ class Analysis:
                         if (c.fq, e.attr) in self.attr_unordered:
                             return self.attr_unordered[(c.fq, e.attr)]
             return False
+        return False
+
+    def _reaching(self, name_node, fn):
+        if self.facts is None or fn is None or \
+                getattr(name_node, '_parent', None) is None:
+            return []
+        try:
+            return self.facts.reaching_defs(fn, name_node)
+        except Exception:
+            return []
+
+    def view(self, e, fn, depth=0):
+        """`e` is a dict view supporting set algebra (keys()/items())."""
+        if depth > 4:
+            return False
+        if isinstance(e, ast.Call) and isinstance(e.func, ast.Attribute):
+            return e.func.attr in ('keys', 'items') and not e.args
+        if isinstance(e, ast.Name) and fn is not None:
+            rd = self._reaching(e, fn)
+            if not rd:
+                rd = [v for v in Q.local_assignments(fn.node, e.id)]
+            return any(v is not None and v is not e and
+                       self.view(v, fn, depth + 1) for v in rd)
         return False
 
     def _resolve_func(self, call, fn):
@@ -285,30 +348,7 @@ def _sanitised(node):
         if name in ORDER_FREE_CALLS and isinstance(p.func, ast.Name):
             return True
         if name == 'sorted' and isinstance(p.func, ast.Name):
-            key = Q.kwarg(p, 'key')
-            if key is None:
-                return True
-            if isinstance(key, ast.Name) and key.id in INJECTIVE_KEYS:
-                return True
-            if isinstance(key, ast.Lambda):
-                # lambda x: x / str(x) / tuple containing x itself
-                b = key.body
-                arg = key.args.args[0].arg
-                if isinstance(b, ast.Name) and b.id == arg:
-                    return True
-                if isinstance(b, ast.Call) and Q.attr_name(b.func) in \
-                        INJECTIVE_KEYS and len(b.args) == 1 and isinstance(
-                            b.args[0], ast.Name) and b.args[0].id == arg:
-                    return True
-                if isinstance(b, ast.Tuple) and any(
-                        (isinstance(x, ast.Name) and x.id == arg) or (
-                            isinstance(x, ast.Call) and Q.attr_name(
-                                x.func) in INJECTIVE_KEYS and len(
-                                    x.args) == 1 and isinstance(
-                                        x.args[0], ast.Name) and
-                            x.args[0].id == arg) for x in b.elts):
-                    return True
-            return False
+            return _injective_key(p)
     return False
 
 
@@ -371,7 +411,11 @@ def check(ctx, modules=None, rule_id=RULE):
              'frozenset, SpecifierSet, set-valued registries) reaches a '
              'consumer that can observe the order, unless sorted with an '
              'injective key or allow-listed with a reason')
-    an = Analysis(repo)
+    from ..facts import Facts
+    F = getattr(ctx, '_facts', None)
+    if F is None:
+        F = ctx._facts = Facts(repo)
+    an = Analysis(repo, F)
     n_src = sum(1 for v in an.ret_unordered.values() if v) + \
         sum(1 for v in an.attr_unordered.values() if v) + \
         sum(1 for v in an.param_unordered.values() if v)
